@@ -19,4 +19,4 @@ def nontrivial(case, s, infos):
     return False
 
 
-check_case, run, replay = gfi_hist.make_prop(CFG, CHECKS, kinds=TOP, nontrivial=nontrivial, examples=(8, 8))
+check_case, run, replay = gfi_hist.make_prop(CFG, CHECKS, kinds=TOP, nontrivial=nontrivial, examples=(6, 6))
